@@ -300,6 +300,70 @@ def find_user_case(rng, variant):
     return term, human
 
 
+def find_prepared_cases(rng, variant):
+    """Two queries PREPARED on one association (the service called, nothing iterated yet) and then consumed in reverse
+    order - or only the second one consumed.  The peer answers every request when it arrives, in order of arrival.
+    Each consumer must get the matches of ITS query.  (One UserOnly case per consumed query.)"""
+    from pynetdicom2 import sopclass, dimsemessages as dm, dsutils
+    sop = MWL if variant == 'worklist' else FIND
+    user = sd.Lab()
+    pc = rng.choice([1, 3, 255])
+    m1 = ids(rng)
+    m2 = m1 + 1 if m1 < 65535 else 1
+    specs = {}
+    for mid, base in ((m1, 10), (m2, 20)):
+        n = rng.choice([1, 2, 3])
+        specs[mid] = [(sd.encode_ds(sd.small_dataset(base + k)), rng.choice([0xFF00, 0xFF01])) for k in range(n)] + [(b'', 0)]
+    pops = [0]
+    plain_receive = user.assoc.receive
+
+    def receive():
+        r = plain_receive()
+        pops[0] += 1
+        return r
+    user.assoc.receive = receive
+
+    def send(gen):
+        cmd = b''
+        for p in gen:
+            for it in p.data_value_items:
+                if it.data_value[0] in (1, 3):
+                    cmd += it.data_value[1:]
+        mid = int(dsutils.decode(cmd, True, True).MessageID)
+        for data, st in specs.get(mid, []):
+            m = dm.CFindRSPMessage()
+            m.message_id_being_responded_to = mid
+            m.sop_class_uid = sop
+            m.status = st
+            if data:
+                m.data_set = data
+            user.incoming.append((m, pc))
+    user.assoc.dul.send = send
+    scu = sopclass.modality_work_list_scu if variant == 'worklist' else sopclass.qr_find_scu
+    mode = rng.choice(['reverse-order', 'second-only'])
+    g1 = scu(user.assoc, user.ctx(pc, sop), sd.small_dataset(5), m1)
+    g2 = scu(user.assoc, user.ctx(pc, sop), sd.small_dataset(6), m2)
+    out = []
+    for mid, g in ([(m2, g2), (m1, g1)] if mode == 'reverse-order' else [(m2, g2)]):
+        before = pops[0]
+        ys, uerr = [], None
+        try:
+            for a, b in g:
+                ys.append(((sd.encode_ds(a) if a is not None else None), int(b)))
+        except Exception as e:  # noqa
+            uerr = repr(e)
+        consumed = pops[0] - before
+        script = specs[mid]
+        term = '(UserOnly %s %s %d)' % (
+            clist(['(%s, %d)' % (cbytes(d) if d else '[]', st) for d, st in script]),
+            clist(['(%s, %d)' % ('None' if a is None else '(Some %s)' % cbytes(a), b) for a, b in ys]), consumed)
+        out.append((term, dict(variant=variant + '-prepared-' + mode, n_matches=len(script) - 1,
+                               statuses=[hex(s) for _d, s in script[:-1]], final='0x0', yielded=len(ys),
+                               yielded_statuses=[hex(b) for _a, b in ys], consumed=consumed, user_error=uerr,
+                               max_pdu=0, pc=pc, message_id=mid)))
+    return out
+
+
 def find_wrapper_case(rng, root_name):
     """pynetdicom2.c_find, the one-call wrapper, against a real server entity over loopback TCP."""
     import pynetdicom2
@@ -391,6 +455,8 @@ def main_c16(tier, seed):
             obs.append(find_case(rng, variant))
         for _ in range(40 if tier == 'quick' else 400):
             obs.append(find_user_case(rng, variant))
+        for _ in range(6 if tier == 'quick' else 40):
+            obs.extend(find_prepared_cases(rng, variant))
     for root_name in ('patient', 'study'):
         for _ in range(6 if tier == 'quick' else 40):
             obs.append(find_wrapper_case(rng, root_name))
@@ -466,13 +532,15 @@ def get_scu_cases(rng, count, as_c17=False):
                 if first_rq is None:
                     first_rq = (rqt, o, pc, mid, inst)
         lab.outcomes['store'] = list(outcomes)
+        lab.store_handler_closes = rng.random() < 0.3      # the application's store handler closes the file it was given
         yields = []
         err = None
         try:
             for ctx, ds in sopclass.qr_get_scu(lab.assoc, lab.ctx(1, GET), sd.small_dataset(0), 5):
                 if hasattr(ds, 'read'):                  # an instance kept in a file: the caller is handed the file
                     from pynetdicom2 import dsutils
-                    ds = dsutils.decode(ds.read(), True, True)
+                    raw = lab.closed_files[id(ds)] if getattr(ds, 'closed', False) else ds.read()
+                    ds = dsutils.decode(raw, True, True)
                 yields.append(str(ds.SOPInstanceUID))
         except Exception as e:  # noqa
             err = repr(e)
@@ -516,7 +584,8 @@ def move_case(rng):
         d.SOPInstanceUID = '1.2.3.%d.%d' % (k, rng.randint(0, 99))
         insts.append(str(d.SOPInstanceUID))
         dsets.append(d)
-    dest = dict(aet='DEST', address='10.0.0.1', port=104)
+    # the node the application designates need not be called like the Move Destination of the request (an alias table)
+    dest = dict(aet=rng.choice(['DEST', 'DEST', 'STORE_REAL']), address='10.0.0.1', port=104)
     known = n > 0 or rng.random() < 0.5
     lab.move_plan = (dest if known else None, n, iter(dsets))
     lab.release_raises = known and rng.random() < 0.2     # the destination confirms the release too late
@@ -533,7 +602,8 @@ def move_case(rng):
         clist(['(%s, %d)' % (cbytes(i.encode()), ok) for i, ok in subops]))
     human = dict(n_instances=n, destination_known=known, sub_outcomes=[hex(c) for c in codes], error=err,
                  responses=[(hex(r['status'] or 0), r['rem'], r['comp'], r['fail'], r['warn']) for r in sent],
-                 sub_operations=subops, sub_assoc_log=lab.sub_log, release_raises=lab.release_raises)
+                 sub_operations=subops, sub_assoc_log=lab.sub_log, release_raises=lab.release_raises,
+                 designated=dest['aet'], reached=[a.remote_ae for a in lab.sub_assocs])
     return term, human
 
 
